@@ -133,8 +133,10 @@ def run_cases(ck, res, n_cases, n_interval):
                 break
         if len(goals) < n_interval and abs(s - 1.0) < 1e-12:
             i = 2 + (ci % 3)
-            goals.append(enga.interval_goal(f'{tname}#{ci}', term, envs[i], penv, {('N@k' if unit else 'N'): probe}, uv[i], scale))
-            goals.append(enga.interval_goal(f'{tname}#{ci}d', dterm, envs[i], penv, {('N@k' if unit else 'N'): probe}, dv[i], scale * 4))
+            goals.append(enga.interval_goal(f'{tname}#{ci}', term, envs[i], penv, {('N@k' if unit else 'N'): probe}, uv[i], scale,
+                                            gen=('Gen_C01', tname, 'term'), names=res[tname]['names']))
+            goals.append(enga.interval_goal(f'{tname}#{ci}d', dterm, envs[i], penv, {('N@k' if unit else 'N'): probe}, dv[i], scale * 4,
+                                            gen=('Gen_C01', tname, 'term'), names=res[tname]['names'], dwrt=(leaf,)))
     # ---- parameterize targets: affine in the raw output, coefficient non-zero off the boundary
     for ci in range(max(6, n_cases // 6)):
         mode = ['IVP_value', 'IVP_prime', 'DBVP', 'DEBVP_dd'][ci % 4]
